@@ -4,6 +4,7 @@ observations the model predicts, in the same canonical text (DESIGN.md Appendix 
 Everything printed is computed by the definitions the theorems are about.
 -/
 import Cntgs.World
+import Cntgs.Compare
 namespace Cntgs.Driver
 open Cntgs
 
@@ -110,7 +111,7 @@ def step (st : St) (line : String) : St × List String :=
     let k := vidx v
     let fs := expandFixed st.ps (parseList fixed)
     let es := elemSize st.ps fs
-    let w' := w.new k st.ps fs cap.toNat! bytes.toNat! alloc.toNat!
+    let w' := w.new k st.ps fs cap.toNat! (ctorBytes st.ps bytes.toNat!) alloc.toNat!
     fin w' [s!"esz={es.size}/{es.stride}", dumpVec k (w'.vecs k)]
   | ["emplace", v, vals] =>
     let k := vidx v
@@ -154,6 +155,32 @@ def step (st : St) (line : String) : St × List String :=
   | ["swap", a, b] =>
     let w' := w.swap (vidx a) (vidx b)
     fin w' ([dumpVec (vidx a) (w'.vecs (vidx a))] ++ (if vidx a ≠ vidx b then [dumpVec (vidx b) (w'.vecs (vidx b))] else []))
+  | ["cmpv", a, b] =>
+    match w.vecs (vidx a), w.vecs (vidx b) with
+    | some va, some vb =>
+      let ea := va.abs.map (·.getD []); let eb := vb.abs.map (·.getD [])
+      let lt := vecLt st.ps ea eb; let gt := vecGt st.ps ea eb
+      let eqs := match vecEq st.ps ea eb with | some e => s!"eq={b2s e} ne={b2s (!e)}" | none => "eq=UB ne=UB"
+      (st, [s!"cmpv {eqs} lt={b2s lt} le={b2s (vecLe st.ps ea eb)} gt={b2s gt} ge={b2s (vecGe st.ps ea eb)}"])
+    | _, _ => (st, ["bad-op cmpv"])
+  | ["cmpe", a, i, b, j] =>
+    match (w.vecs (vidx a)).bind (·.get i.toNat!), (w.vecs (vidx b)).bind (·.get j.toNat!) with
+    | some ea, some eb =>
+      let lt := elemLt st.ps ea eb; let gt := elemGt st.ps ea eb
+      let eqs := match elemEq st.ps ea eb with | some e => s!"eq={b2s e} ne={b2s (!e)}" | none => "eq=UB ne=UB"
+      (st, [s!"cmpe {eqs} lt={b2s lt} le={b2s (elemLe st.ps ea eb)} gt={b2s gt} ge={b2s (elemGe st.ps ea eb)}"])
+    | _, _ => (st, ["bad-op cmpe"])
+  | ["transe", a, i, b, j, c, k] =>
+    match (w.vecs (vidx a)).bind (·.get i.toNat!), (w.vecs (vidx b)).bind (·.get j.toNat!), (w.vecs (vidx c)).bind (·.get k.toNat!) with
+    | some ea, some eb, some ec =>
+      (st, [s!"transe ab={b2s (elemLt st.ps ea eb)} bc={b2s (elemLt st.ps eb ec)} ac={b2s (elemLt st.ps ea ec)}"])
+    | _, _, _ => (st, ["bad-op transe"])
+  | ["transv", a, b, c] =>
+    match w.vecs (vidx a), w.vecs (vidx b), w.vecs (vidx c) with
+    | some va, some vb, some vc =>
+      let ea := va.abs.map (·.getD []); let eb := vb.abs.map (·.getD []); let ec := vc.abs.map (·.getD [])
+      (st, [s!"transv ab={b2s (vecLt st.ps ea eb)} bc={b2s (vecLt st.ps eb ec)} ac={b2s (vecLt st.ps ea ec)}"])
+    | _, _, _ => (st, ["bad-op transv"])
   | ["destroy", v] =>
     let k := vidx v
     let w' := w.destroy k
